@@ -203,6 +203,8 @@ class Executor:
 
     def e_Constant(self, st, e):
         c = e.value
+        if isinstance(c, float):
+            return fresh(SINK, "float")      # floating point only occurs in reporting code: a sink
         if isinstance(c, bool):
             return mk_bool(c)
         if isinstance(c, int):
@@ -342,6 +344,8 @@ class Executor:
         return self.binop(st, e.op, a, b)
 
     def binop(self, st, op, a, b):
+        if (isinstance(a, V) and a.ty == SINK) or (isinstance(b, V) and b.ty == SINK):
+            return fresh(SINK, "sinkop")
         if isinstance(a, K) and isinstance(b, K):
             if isinstance(op, ast.Add):
                 return self.lift_py(a.v + b.v)
@@ -433,6 +437,8 @@ class Executor:
                 lt = self.order(ast.Lt() if less else ast.Gt(), x, y)
                 res = z3.Or(lt, z3.And(val_eq(x, y), res))
             return res
+        if (isinstance(a, V) and a.ty == SINK) or (isinstance(b, V) and b.ty == SINK):
+            return z3.Bool(T.fresh_name("sink_cmp"))
         x = coerce(unwrap_opt(a) if isinstance(a, V) else a, INT).z
         y = coerce(unwrap_opt(b) if isinstance(b, V) else b, INT).z
         if isinstance(op, ast.Lt):
@@ -446,6 +452,8 @@ class Executor:
         raise Unsupported("comparison")
 
     def contains(self, st, cont, item):
+        if (isinstance(cont, V) and cont.ty == SINK) or (isinstance(item, V) and item.ty == SINK):
+            return z3.Bool(T.fresh_name("sink_in"))
         sd = ops.sdict_of(cont)
         if sd is not None:
             if isinstance(item, K):
@@ -502,6 +510,8 @@ class Executor:
         return self.subscript(st, base, idx)
 
     def subscript(self, st, base, idx):
+        if isinstance(base, V) and base.ty == SINK:
+            return fresh(SINK, "sinkitem")
         sd = ops.sdict_of(base)
         if sd is not None:
             if not (isinstance(idx, K) and isinstance(idx.v, str)):
@@ -925,6 +935,8 @@ class Executor:
         return r
 
     def builtin(self, st, o, args, kwargs, node):
+        if o in (int, str, bool, len, repr, list, tuple, sorted, min, max, abs) and any(isinstance(a, V) and a.ty == SINK for a in args):
+            return fresh(SINK, "sinkfn") if o is not bool else V(BOOL, truthy(args[0]))
         if o is _implies:
             return V(BOOL, z3.Implies(truthy(args[0]), truthy(args[1])))
         if o is _iff:
@@ -1023,8 +1035,8 @@ class Executor:
             return self.getattr(st, a, args[1].v)
         if o is set and not args:
             return PyObj(("emptyset",))
-        if o is dict and not args and not kwargs:
-            return PyObj(("dictlit", {}))
+        if o is dict and not args:
+            return SDict(kwargs)
         if o is set and len(args) == 1:
             return self.set_of(st, args[0])
         return NotImplemented
